@@ -917,9 +917,14 @@ class Sim(FAM.FamilyMixin):
             if ln != n and h.masked and ln == h.ulen:
                 ln += 1     # the unmasked length is a legal operand length for a masked left-hand side
             vals = [small(op["v"] * 16 + i) for i in range(ln)]
-            ld = self.live_data(op, h.tname, ln, h.store) if rhs == "array" else None
+            # (one time in three the operand may be a view of the destination's own storage: r1 = a[m1]; r2 = a[m2];
+            # r1 += r2 - the operand's values at the time of the call count, defect 25)
+            ld = self.live_data(op, h.tname, ln, None if (op["h"] // 17) % 3 == 0 else h.store) if rhs == "array" else None
             if ld and all(all(isinstance(x, bool) or abs(x) < 1 << 20 for x in v) for v in ld[1]):
                 data, vals = ld
+                if self.last_live_store is h.store:
+                    self.inc("probe.inplace_operand_shares_storage_with_destination")
+                    self.ctx("inplace-array-operand-shares-storage", h)
             else:
                 data = self.make_array(h.tname, vals)
             got = self.call(fn, data)
